@@ -19,11 +19,13 @@ Formalisation choices (fixed here, see also `typedNormal` / `inRange` in the mod
   `FieldBase` is the factory's; the value of the **last** occurrence counts (Reset stores by number); a value of
   another type than the field's, or the base type's invalid value, is "read as invalid" and the field is absent;
   an array field is kept whatever its elements (only a nil slice is invalid), a string unless empty;
-* expanded marks are kept for the numbers the generated code declares eligible (targets of components); a mark on
-  another number has no meaning in the profile and is not kept; a marked field is dropped by ToMesg unless
-  IncludeExpandedFields — that is what the option is for;
-* a field that carries a name but whose number the message does not have (number below the guard) is not an
-  "unknown field" for the generated code and is dropped ("read as invalid");
+* expanded marks and fields the struct has no slot for: `typedNormal` is what the generated code does (marks kept for the
+  numbers it declares eligible = component targets; a named field whose number the message lacks, below the bound, is
+  dropped). The PROPERTY says "keeps the expanded-field marks" and "the same unknown fields / kept as unknown fields"
+  without qualification: `typedNormalFull` is the normal form it demands, `C13_mesg_struct_mesg_partial` proves the code
+  meets it outside two classes, `C13_KF_witnesses` / `C13_full_is_false` show it does not inside them (open findings
+  KF-C13-1, KF-C13-2; neither class can come out of the decoder with the standard factory). A marked field is dropped by
+  ToMesg unless IncludeExpandedFields — that is what the option is for;
 * struct → message → struct: `inRange` — slots hold valid contents or *the* invalid content of their kind
   (e.g. `typedef.Bool` 0, 1 or 255; a time is `time.Time{}` or a whole second in `[epoch, epoch + 2^32 − 2]`),
   marks only on eligible slots that are emitted, UnknownFields hold fields that are unknown to the message.
